@@ -25,7 +25,7 @@ use crate::{
     counter::{AnyCounter, BytesFormat, KnownCounterKind},
     divan::SharedContext,
     stats::{Stats, StatsSet},
-    time::{FineDuration, Timer, TscTimestamp},
+    time::{FineDuration, Timer, Timestamp, TscTimestamp},
     util::thread::ThreadPool,
     Bencher,
 };
@@ -333,6 +333,22 @@ pub fn tsc_duration_since(later: u64, earlier: u64, frequency: u64) -> u128 {
         .duration_since(
             TscTimestamp { value: earlier },
             NonZeroU64::new(frequency).unwrap(),
+        )
+        .picos
+}
+
+/// Same difference through the tagged `Timestamp` wrapper the sample loop and
+/// the time budget go through.
+pub fn timestamp_duration_since(
+    later: u64,
+    earlier: u64,
+    frequency: u64,
+) -> u128 {
+    let frequency = NonZeroU64::new(frequency).unwrap();
+    Timestamp::Tsc(TscTimestamp { value: later })
+        .duration_since(
+            Timestamp::Tsc(TscTimestamp { value: earlier }),
+            Timer::Tsc { frequency },
         )
         .picos
 }
